@@ -2,13 +2,13 @@
 #![allow(dead_code)]
 use super::*;
 
-/// Replacement for `ZXMemory::ram_page_data` in loop-cutting harnesses: the first 4 bytes of the page.
-pub(crate) fn ram_page_head<'a>(m: &'a ZXMemory, page: u8) -> &'a [u8] {
-    if (page as usize + 1) * PAGE_SIZE > m.ram.len() {
-        panic!("no such RAM page");
-    }
-    let shift = page as usize * PAGE_SIZE;
-    &m.ram[shift..shift + 4]
+/// Head (first 4 bytes) of each of the 8 RAM pages as the loop-cutting stub serves them.
+pub(crate) static mut PAGE_HEADS: [[u8; 4]; 8] = [[0; 4]; 8];
+
+/// Replacement for `ZXMemory::ram_page_data` in loop-cutting harnesses: a 4-byte page head.
+pub(crate) fn ram_page_head(m: &ZXMemory, page: u8) -> &[u8] {
+    kani::assert((page as usize + 1) * PAGE_SIZE <= m.ram.len(), "c08.refresh.page_exists");
+    unsafe { &PAGE_HEADS[(page & 7) as usize] }
 }
 
 pub(crate) fn ram_len(m: &ZXMemory) -> usize {
